@@ -6,7 +6,7 @@
 (* (identity, a diagonal and a full SPD matrix), every k <= KMax.                     *)
 EXTENDS KrylovProg, TLC
 
-CONSTANTS N, AMax, KMax, Methods,
+CONSTANTS N, AMax, AMaxCG, KMax, Methods,
           Wide,      \* TRUE: more right-hand sides / preconditioners (thorough tier)
           BsBound    \* BiCGStab takes a further step only from states whose rationals are below this
                      \* size (the numbers of the second step grow like the 5th power: 32-bit TLC integers)
@@ -16,7 +16,7 @@ vars == <<sys, k, st>>
 
 FSet == IF N = 2 THEN (IF Wide THEN {<<1, 0>>, <<1, 2>>} ELSE {<<1, 2>>})
                  ELSE {<<1, 2, -1>>}
-XSet == IF N = 2 THEN {<<0, 0>>, <<1, -1>>} ELSE {<<0, 0, 0>>, <<1, -1, 0>>}
+XSet == IF N = 2 THEN (IF Wide THEN {<<0, 0>>, <<1, -1>>} ELSE {<<1, -1>>}) ELSE {<<1, -1, 0>>}
 PSet == IF N = 2 THEN (IF Wide THEN {<< <<1, 0>>, <<0, 1>> >>, << <<1, 0>>, <<0, 2>> >>, << <<2, 1>>, <<1, 1>> >>}
                                ELSE {<< <<1, 0>>, <<0, 1>> >>, << <<2, 1>>, <<1, 1>> >>})
                  ELSE {<< <<1, 0, 0>>, <<0, 1, 0>>, <<0, 0, 1>> >>, << <<2, 1, 0>>, <<1, 2, 0>>, <<0, 0, 1>> >>}
@@ -38,24 +38,31 @@ InitState(s) ==
     LET Aq == RMat(s.A)  Pq == RMat(s.P)  fq == RVec(s.f)  xq == RVec(s.x0)
     IN  CASE IsCG(s.m) -> CGInit(Aq, Pq, fq, xq)
           [] IsBs(s.m) -> BsInitQ(Aq, Pq, fq, xq, Side(s.m))
-          [] IsGmres(s.m) -> [x |-> xq, def |-> TRUE, done |-> FALSE]
+          [] IsGmres(s.m) -> [x |-> xq, def |-> TRUE, done |-> FALSE,
+                              rn2 |-> GmresResNorm2(Aq, Pq, fq, xq, Side(s.m)), prev |-> GmresResNorm2(Aq, Pq, fq, xq, Side(s.m))]
           [] OTHER -> RichInit(Aq, fq, xq)
 
-Init == /\ sys \in { s \in [A : {AsRows(M, N) : M \in IntMats(N, AMax)}, f : FSet, x0 : XSet, P : PSet, m : Methods] :
-                        /\ Nonsingular(RMat(s.A))
-                        /\ (IsCG(s.m) => PosDef(RMat(s.A)) /\ PosDef(RMat(s.P))) }
+SysSet(m) == { s \in [A : {AsRows(M, N) : M \in IntMats(N, IF IsCG(m) THEN AMaxCG ELSE AMax)},
+                       f : FSet, x0 : XSet, P : PSet, m : {m}] :
+                   IF IsCG(m) THEN PosDef(RMat(s.A)) /\ PosDef(RMat(s.P)) ELSE Nonsingular(RMat(s.A)) }
+Init == /\ sys \in UNION {SysSet(m) : m \in Methods}
         /\ k = 0
         /\ st = InitState(sys)
 
-StSize(s) == LET m1 == VSize(s.x) m2 == VSize(s.r) m3 == VSize(s.p) m4 == VSize(s.v) m5 == VSize(<<s.alpha, s.omega, s.rho1>>)
-                 S == {m1, m2, m3, m4, m5}
-             IN  CHOOSE m \in S : \A y \in S : y <= m
+\* largest numerator / denominator held in a program state
+MaxOfSet(S) == CHOOSE m \in S : \A y \in S : y <= m
+StSize(s) == IF IsCG(sys.m) THEN MaxOfSet({VSize(s.x), VSize(s.r), VSize(s.p), VSize(<<s.rho1>>)})
+             ELSE IF IsBs(sys.m) THEN MaxOfSet({VSize(s.x), VSize(s.r), VSize(s.p), VSize(s.v), VSize(<<s.alpha, s.omega, s.rho1>>)})
+             ELSE VSize(s.x)
 Next == /\ k < KMax /\ k' = k + 1 /\ UNCHANGED sys
-        /\ (IsBs(sys.m) /\ k >= 1) => StSize(st) <= BsBound
-        /\ (IsGmres(sys.m) /\ Restart(sys.m) < KMax /\ k >= 1) => VSize(st.x) <= BsBound
+        \* 32-bit integers: a further step of a recurrence is taken only from states with small numbers
+        \* (the second step multiplies four of them); full GMRES and Richardson are not restricted
+        /\ (k >= 1 /\ (IsCG(sys.m) \/ IsBs(sys.m) \/ (IsGmres(sys.m) /\ Restart(sys.m) < KMax))) => StSize(st) <= BsBound
         /\ st' = CASE IsCG(sys.m) -> CGStep(A, P, st)
                    [] IsBs(sys.m) -> BsStepQ(A, P, Side(sys.m), st)
-                   [] IsGmres(sys.m) -> [x |-> GmresProg(A, P, f, x0, k + 1, Restart(sys.m), Side(sys.m)), def |-> TRUE, done |-> FALSE]
+                   [] IsGmres(sys.m) -> LET x == GmresProg(A, P, f, x0, k + 1, Restart(sys.m), Side(sys.m))
+                                        IN  [x |-> x, def |-> TRUE, done |-> FALSE,
+                                             rn2 |-> GmresResNorm2(A, P, f, x, Side(sys.m)), prev |-> st.rn2]
                    [] OTHER -> RichStep(A, P, f, Omega(sys.m), st)
 
 \* ------------------------------------------------------------------ invariants
@@ -75,8 +82,5 @@ CarriedResidual ==
         LET r == Residual(A, f, st.x)
         IN  VEq(st.r, IF IsBs(sys.m) /\ Side(sys.m) = "left" THEN MatVec(P, r) ELSE r)
 \* GMRES: the minimised residual norm does not increase within a cycle or across restarts
-GmresMonotone ==
-    (IsGmres(sys.m) /\ k > 0 /\ VSize(st.x) <= 64) =>
-        QLe(GmresResNorm2(A, P, f, st.x, Side(sys.m)),
-            GmresResNorm2(A, P, f, GmresProg(A, P, f, x0, k - 1, Restart(sys.m), Side(sys.m)), Side(sys.m)))
+GmresMonotone == IsGmres(sys.m) => QLe(st.rn2, st.prev)
 =============================================================================
